@@ -39,8 +39,9 @@ fn static_eval_rq_operator(mut expr: Expr) -> Expr {
             if let (ExprKind::Literal(left), ExprKind::Literal(right)) =
                 (&args[0].kind, &args[1].kind)
             {
-                // don't eval comparisons between different types of literals
-                if left.as_ref() == right.as_ref() {
+                // don't eval comparisons between different types of literals,
+                // nor between date/time literals (they are compared as source text)
+                if left.as_ref() == right.as_ref() && !is_temporal(left) {
                     return Expr::new(Literal::Boolean(left == right));
                 }
             }
@@ -49,8 +50,9 @@ fn static_eval_rq_operator(mut expr: Expr) -> Expr {
             if let (ExprKind::Literal(left), ExprKind::Literal(right)) =
                 (&args[0].kind, &args[1].kind)
             {
-                // don't eval comparisons between different types of literals
-                if left.as_ref() == right.as_ref() {
+                // don't eval comparisons between different types of literals,
+                // nor between date/time literals (they are compared as source text)
+                if left.as_ref() == right.as_ref() && !is_temporal(left) {
                     return Expr::new(Literal::Boolean(left != right));
                 }
             }
@@ -83,6 +85,13 @@ fn static_eval_rq_operator(mut expr: Expr) -> Expr {
     };
     expr.kind = ExprKind::RqOperator { name, args };
     expr
+}
+
+fn is_temporal(l: &Literal) -> bool {
+    matches!(
+        l,
+        Literal::Date(_) | Literal::Time(_) | Literal::Timestamp(_)
+    )
 }
 
 fn static_eval_case(mut expr: Expr) -> Expr {
